@@ -32,7 +32,11 @@ def check_param(ml, cls_name, p):
     kw = {p: s}
   with warnings.catch_warnings(record=True) as w:
     warnings.simplefilter('always')
-    est = cls(**kw)
+    try:
+      est = cls(**kw)
+    except Exception as e:
+      # "every parameter x arbitrary values ... is stored untouched": a constructor that inspects / converts the value cannot store it untouched
+      return dict(call='%s(%s=<sentinel object>)' % (cls_name, p), observed='the constructor raised %s: %s' % (type(e).__name__, str(e)[:120]))
   got = est.get_params(deep=False).get(p, '<absent>')
   if got is not s:
     return dict(call='%s(%s=<sentinel>)' % (cls_name, p), observed='get_params()[%r] = %r' % (p, got))
